@@ -12,6 +12,16 @@ run(ctx) (merged into the C14 result by c14.py):
       * construct -> parse returns version 4, the true AS, hold, id, the configured capability set,
         through the attributes and through the return value
       * reference-encoded OPEN decodes to the expected dictionary
+
+Address families.  Every capability that carries <AFI, SAFI> (multiprotocol, ADD-PATH with every
+Send/Receive value, graceful restart, LLGR, extended next hop) is generated for EVERY family of
+REF_FAMILY_NAME, every further key of the live constants.AFI_SAFI_DICT and some families nobody
+knows (gen_family_sweep).  The NAMES expected in the 'add_path' entries come from REF_FAMILY_NAME /
+REF_MODE_NAME below - a transcription of coq/spec/RefOpenNames.v (compared with it inside Coq on
+every run), never from the constants module under test: a renamed family is a violation with the
+OPEN that shows it.  An ADD-PATH entry for a family or mode without a reference name raises
+(KeyError) in the unchanged code; the property speaks of known families only, so that behaviour is
+the reference for those inputs (expected outcome: exception).
 """
 import ast
 import itertools
@@ -21,29 +31,51 @@ import env  # noqa: F401
 import common
 from session import Bytes, coq_sx, coq_bytes
 
-IMPORTS = 'From YV Require Import lib.Base gen.Consts model.YMsg model.YOpen.\n'
+IMPORTS = ('From YV Require Import lib.Base gen.Consts model.YMsg model.YOpen model.YOpenNames '
+           'spec.RefOpenNames.\n')
 PER_SHARD = 200
 
 ADDPATH_STR = {0: None, 1: 'ipv4_receive', 2: 'ipv4_send', 3: 'ipv4_both', 4: 'ipv6_both'}
 CODE_NAMES = ['MULTIPROTOCOL_EXTENSIONS', 'ROUTE_REFRESH', 'EXTENDED_NEXT_HOP', 'GRACEFUL_RESTART',
               'FOUR_BYTES_ASN', 'ADD_PATH', 'ENHANCED_ROUTE_REFRESH', 'LLGR', 'CISCO_ROUTE_REFRESH',
               'CISCO_MULTISESSION_BGP']
-FAMILIES = [(1, 1), (1, 2), (2, 1), (1, 4), (2, 4), (1, 133), (1, 128), (2, 128), (25, 70), (16388, 71),
-            (1, 73), (2, 133)]
+# Reference names (transcription of coq/spec/RefOpenNames.v family_names / mode_names; written down
+# here, NOT read from yabgp.common.constants).  IPv4: unicast, multicast, labelled, flow specification,
+# MPLS VPN, SR policy; IPv6: unicast, labelled, MPLS VPN, flow specification; L2VPN EVPN; BGP-LS.
+REF_FAMILY_NAME = {
+    (1, 1): 'ipv4', (1, 2): 'ipv4_mcast', (2, 1): 'ipv6', (1, 4): 'ipv4_lu', (2, 4): 'ipv6_lu',
+    (1, 133): 'flowspec', (1, 128): 'vpnv4', (2, 128): 'vpnv6', (25, 70): 'evpn', (16388, 71): 'bgpls',
+    (1, 73): 'ipv4_srte', (2, 133): 'ipv6_flowspec'}
+REF_MODE_NAME = {1: 'receive', 2: 'send', 3: 'both'}              # RFC 7911 s.4
+REF_FAMILY_OF = {v: k for k, v in REF_FAMILY_NAME.items()}
+REF_MODE_OF = {v: k for k, v in REF_MODE_NAME.items()}
+assert len(REF_FAMILY_OF) == len(REF_FAMILY_NAME) and len(REF_MODE_OF) == len(REF_MODE_NAME)
+FAMILIES = list(REF_FAMILY_NAME)
+# families without a name anywhere: IPv4 SAFI 3 (obsolete), IPv6 multicast, IPv4 MVPN, IPv6 SR policy,
+# VPLS, BGP-LS-VPN, AFI 3, reserved values
+UNKNOWN_FAMILIES = [(2, 2), (1, 129), (2, 73), (25, 65), (16388, 72), (1, 3), (3, 1), (0, 0), (65535, 255)]
 ASSIGNED = [1, 2, 5, 64, 65, 69, 70, 71, 128, 131]
 
 
 # ------------------------------------------------------------------------------------------
 # canonical rendering of implementation values (mirrors YOpen.sx_*)
 # ------------------------------------------------------------------------------------------
-def render_capa(d):
-    from yabgp.common import constants as C
-    fam_of = {}
-    for k, v in C.AFI_SAFI_DICT.items():
-        fam_of.setdefault(v, k)
-    act_of = {}
-    for k, v in C.ADD_PATH_ACT_DICT.items():
-        act_of.setdefault(v, k)
+def _name_entry(x, named):
+    """one element of capa_dict['add_path'].  named: [Bytes(family name), Bytes(mode name)];
+    else [afi, safi, code] through the REFERENCE tables (a name the reference does not know is [999])"""
+    if not (isinstance(x, dict) and set(x) == {'afi_safi', 'send/receive'}):
+        return [999]
+    f, m = x['afi_safi'], x['send/receive']
+    if not (isinstance(f, str) and isinstance(m, str)):
+        return [999]
+    if named:
+        return [Bytes(f.encode('utf-8')), Bytes(m.encode('utf-8'))]
+    if f not in REF_FAMILY_OF or m not in REF_MODE_OF:
+        return [999]
+    return list(REF_FAMILY_OF[f]) + [REF_MODE_OF[m]]
+
+
+def render_capa(d, named=False):
     d = dict(d)
 
     def flag(k):
@@ -60,8 +92,7 @@ def render_capa(d):
            optlist('afi_safi', lambda x: [int(x[0]), int(x[1])]),
            flag('route_refresh'), flag('cisco_route_refresh'), flag('graceful_restart'),
            flag('cisco_multi_session'), flag('enhanced_route_refresh'),
-           optlist('add_path', lambda x: (list(fam_of[x['afi_safi']]) + [act_of[x['send/receive']]]
-                                          if set(x) == {'afi_safi', 'send/receive'} else [999])),
+           optlist('add_path', lambda x: _name_entry(x, named)),
            optlist('LLGR', lambda x: (list(x['afi_safi']) + [x['time']]
                                       if set(x) == {'afi_safi', 'time'} else [999])),
            optlist('ext_nexthop', lambda x: (list(x['afi_safi']) + [x['nexthop_afi']]
@@ -79,13 +110,29 @@ def render_capa(d):
     return out
 
 
-def render_attrs(version, asn, hold, bgp_id, capa):
+def named_dict(dic):
+    """expected dictionary with numeric add_path entries [afi, safi, code] -> the same with the
+    REFERENCE names; None when some entry has no reference name (expected outcome: exception)"""
+    dic = list(dic)
+    if dic[7]:
+        ents = []
+        for a, s_, v in dic[7][0]:
+            if (a, s_) not in REF_FAMILY_NAME or v not in REF_MODE_NAME:
+                return None
+            ents.append([Bytes(REF_FAMILY_NAME[(a, s_)].encode()), Bytes(REF_MODE_NAME[v].encode())])
+        dic[7] = [ents]
+    return dic
+
+
+def render_attrs(version, asn, hold, bgp_id, capa, named=False):
     import netaddr
-    return [version, asn, hold, int(netaddr.IPAddress(bgp_id)), render_capa(capa)]
+    return [version, asn, hold, int(netaddr.IPAddress(bgp_id)), render_capa(capa, named)]
 
 
-def impl_parse(body):
-    """canonical value of Open().parse(body): [attributes, return value]"""
+def impl_parse(body, named=False):
+    """canonical value of Open().parse(body): [attributes, return value]
+    (named=False: the form of YOpen.sx_open_parse, also used by c15.py; named=True: the form of
+    YOpenNames.sx_open_parse_n, 'add_path' entries as the two strings)"""
     from yabgp.message.open import Open
     from yabgp.common import exception as excep
     o = Open()
@@ -95,11 +142,11 @@ def impl_parse(body):
         return [1, e.error, e.sub_error]
     except Exception:
         return [2]
-    attrs = render_attrs(o.version, o.asn, o.hold_time, o.bgp_id, o.capa_dict)
+    attrs = render_attrs(o.version, o.asn, o.hold_time, o.bgp_id, o.capa_dict, named)
     if ret is None:
         r = []
     elif isinstance(ret, dict) and set(ret) == {'version', 'asn', 'hold_time', 'bgp_id', 'capabilities'}:
-        r = [render_attrs(ret['version'], ret['asn'], ret['hold_time'], ret['bgp_id'], ret['capabilities'])]
+        r = [render_attrs(ret['version'], ret['asn'], ret['hold_time'], ret['bgp_id'], ret['capabilities'], named)]
     else:
         r = [[999]]
     return [0, [attrs, r]]
@@ -327,31 +374,108 @@ CAP_POOL = [
 ]       # 11 kinds (the ten of the property text; the last holds unknown codes and Cisco multisession)
 
 
+def live_family_keys():
+    """keys of the live constants.AFI_SAFI_DICT that can go on the wire (used only to widen the
+    generator: a family added to the module under test is swept like the reference ones)"""
+    try:
+        from yabgp.common import constants as C
+        return [tuple(k) for k in C.AFI_SAFI_DICT
+                if isinstance(k, tuple) and len(k) == 2 and all(isinstance(x, int) for x in k)
+                and 0 <= k[0] <= 65535 and 0 <= k[1] <= 255]
+    except Exception:
+        return []
+
+
+def named_families():
+    """reference families + further live ones (no reference name: swept like unknown ones)"""
+    return FAMILIES + [k for k in live_family_keys() if k not in REF_FAMILY_NAME]
+
+
+def any_family(rng, p_known=0.7):
+    r = rng.random()
+    if r < p_known:
+        return rng.choice(named_families())
+    if r < p_known + (1 - p_known) / 2:
+        return rng.choice(UNKNOWN_FAMILIES)
+    return (rng.choice([0, 1, 2, 25, 16388, 65535, rng.randrange(65536)]), rng.randrange(256))
+
+
 def rand_cap(rng):
     k = rng.randrange(12)
-    fam = lambda: rng.choice(FAMILIES)   # noqa: E731
     n = rng.choice([0, 1, 1, 2, 3])
     if k == 0:
-        return ('Mp', rng.choice([0, 1, 2, 25, 16388, 65535]), rng.choice([0, 1, 2, 4, 128, 133, 255]))
+        return ('Mp',) + any_family(rng, 0.6)
     if k == 1:
         return rng.choice([('RouteRefresh',), ('CiscoRouteRefresh',), ('EnhancedRR',)])
     if k == 2:
         return ('GracefulRestart', rng.randrange(16), rng.choice([0, 1, 120, 4095]),
-                [(rng.choice([1, 2, 65535]), rng.randrange(256), rng.choice([0, 128, 255])) for _ in range(n)])
+                [any_family(rng) + (rng.choice([0, 128, 255]),) for _ in range(n)])
     if k == 3:
         return ('As4', rng.choice(AS_OK + [0, 23456]))
-    if k in (4, 5):
-        return ('AddPath', [fam() + (rng.choice([1, 2, 3]),) for _ in range(n)])
+    if k in (4, 5):         # mostly named families and defined modes (else: exception, see module text)
+        return ('AddPath', [any_family(rng, 0.94) + (rng.choice([1, 2, 3] * 10 + [0, 4]),) for _ in range(n)])
     if k == 6:
-        return ('ExtNexthop', [(rng.choice([1, 2, 65535]), rng.choice([1, 4, 128, 65535]),
-                                rng.choice([1, 2, 0])) for _ in range(n)])
+        return ('ExtNexthop', [(lambda f: (f[0], rng.choice([f[1], f[1], 65535, 256 + f[1]])))(any_family(rng))
+                               + (rng.choice([1, 2, 0, 65535]),) for _ in range(n)])
     if k == 7:
-        return ('Llgr', [(rng.choice([1, 2, 65535]), rng.randrange(256), rng.choice([0, 128]),
-                          rng.choice([0, 1, 86400, 2 ** 24 - 1])) for _ in range(n)])
+        return ('Llgr', [any_family(rng) + (rng.choice([0, 128]), rng.choice([0, 1, 86400, 2 ** 24 - 1]))
+                         for _ in range(n)])
     if k == 8:
         return ('Unknown', 131, bytes(rng.randrange(256) for _ in range(rng.choice([0, 1, 2]))))
     code = rng.choice([c for c in [0, 3, 4, 6, 63, 66, 67, 68, 72, 127, 129, 130, 132, 255] if c not in ASSIGNED])
     return ('Unknown', code, bytes(rng.randrange(256) for _ in range(rng.choice([0, 1, 4, 9]))))
+
+
+def gen_family_sweep(ctx):
+    """every capability that carries <AFI, SAFI>, for every named family (reference + live) and the
+    unknown ones: [(my_as, hold, id, params, family)]"""
+    rng = ctx.rng
+    out = []
+    named = named_families()
+    big = 4200000001
+
+    def emit(f, caps, all_packagings=True):
+        pk = packagings(caps, rng, False)
+        for ps in (pk if all_packagings else pk[rng.randrange(2):][:1]):
+            if fits(ps):
+                out.append((rng.choice([1, 23456, 64512, 65535]), rng.choice(HOLD_OK), rng.choice(ID_OK), ps, f))
+
+    # quick tier: four of the unknown families per seed, fewer packagings of the longer sequences
+    unknown = UNKNOWN_FAMILIES if ctx.thorough else rng.sample(UNKNOWN_FAMILIES, 4)
+    for f in named + unknown:
+        a, s = f
+        o1, o2 = rng.sample([x for x in FAMILIES if x != f], 2)
+        emit(f, [('Mp', a, s)])
+        emit(f, [('Mp', 1, 1), ('Mp', a, s), ('As4', big)])
+        for v in (1, 2, 3):                               # every Send/Receive value
+            emit(f, [('AddPath', [(a, s, v)])])
+            emit(f, [('Mp', a, s), ('As4', big), ('AddPath', [(a, s, v)])], ctx.thorough or v == 3)
+            emit(f, [('AddPath', [o1 + (rng.choice([1, 2, 3]),), (a, s, v)])], False)
+            emit(f, [('AddPath', [(a, s, v)]), ('RouteRefresh',), ('AddPath', [o2 + (rng.choice([1, 2, 3]),)])], False)
+        for v in (0, 4, 255):                             # undefined Send/Receive values
+            emit(f, [('AddPath', [(a, s, v)])], False)
+        emit(f, [('GracefulRestart', 0, 120, [(a, s, 128)])])
+        emit(f, [('GracefulRestart', 15, 4095, [o1 + (0,), (a, s, 0)])], False)
+        emit(f, [('Llgr', [(a, s, 128, 86400)])])
+        emit(f, [('Llgr', [o2 + (0, 0), (a, s, 0, 2 ** 24 - 1)])], False)
+        emit(f, [('ExtNexthop', [(a, s, 2)])])
+        emit(f, [('ExtNexthop', [(a, s, 1), o1 + (2,)])], False)
+        everything = [('Mp', a, s), ('RouteRefresh',), ('GracefulRestart', 8, 120, [(a, s, 128)]), ('As4', big),
+                      ('AddPath', [(a, s, rng.choice([1, 2, 3]))]), ('ExtNexthop', [(a, s, 2)]),
+                      ('Llgr', [(a, s, 128, 3600)])]
+        emit(f, everything)
+        emit(f, rng.sample(everything, len(everything)), ctx.thorough)
+    # all named families at once, in table order, reversed and shuffled
+    for fams in (list(named), list(reversed(named)), rng.sample(named, len(named))):
+        for v in (1, 2, 3):
+            emit(None, [('AddPath', [f + (v,) for f in fams])])
+            emit(None, [('AddPath', [f + (v,)]) for f in fams], v == 3)
+        emit(None, [('AddPath', [f + (rng.choice([1, 2, 3]),) for f in fams])])
+        emit(None, [('Mp',) + f for f in fams])
+        emit(None, [('GracefulRestart', 4, 300, [f + (rng.choice([0, 128]),) for f in fams])])
+        emit(None, [('Llgr', [f + (rng.choice([0, 128]), rng.choice([0, 86400, 2 ** 24 - 1])) for f in fams])])
+        emit(None, [('ExtNexthop', [f + (rng.choice([1, 2]),) for f in fams])])
+    return out
 
 
 def packagings(caps, rng, thorough):
@@ -401,7 +525,7 @@ def gen_reference(ctx):
                 out.append((rng.choice([1, 23456, 64512, 65535]), rng.choice(HOLD_OK), rng.choice(ID_OK), ps))
     out.append((65001, 180, 1, []))                      # no optional parameters at all
     out.append((65001, 0, 0xffffffff, [[]]))             # one empty capabilities parameter
-    return out
+    return [c[:4] for c in gen_family_sweep(ctx)] + out
 
 
 def gen_malformed(ctx, seeds):
@@ -492,6 +616,58 @@ def live_consts():
             [list(k) for k in C.AFI_SAFI_DICT], list(C.ADD_PATH_ACT_DICT)]
 
 
+def live_const_names():
+    """items of the two live dictionaries, in order (form of YOpenNames.sx_const_names)"""
+    from yabgp.common import constants as C
+
+    def nm(v):
+        return Bytes(v.encode('utf-8')) if isinstance(v, str) else Bytes(b'\xff')
+    return [[[int(k[0]), int(k[1]), nm(v)] for k, v in C.AFI_SAFI_DICT.items()],
+            [[int(k), nm(v)] for k, v in C.ADD_PATH_ACT_DICT.items()]]
+
+
+def ref_names_rendered():
+    """REF_FAMILY_NAME / REF_MODE_NAME in the form of RefOpenNames.sx_ref_names"""
+    return [[[a, s_, Bytes(n.encode())] for (a, s_), n in REF_FAMILY_NAME.items()],
+            [[k, Bytes(n.encode())] for k, n in REF_MODE_NAME.items()]]
+
+
+def want_parse(version, asn, hold, bid, dic):
+    """expected canonical value of impl_parse(body, named=True) for a decodable OPEN"""
+    nd = named_dict(dic)
+    if nd is None:
+        return [2]          # ADD-PATH entry without a reference name: KeyError today (see module text)
+    w = [version, asn, hold, bid, nd]
+    return [0, [w, [w]]]
+
+
+def family_coverage(refs):
+    """distinct <AFI, SAFI> per capability kind over the reference stream"""
+    cov = {'Mp': set(), 'AddPath': set(), 'GracefulRestart': set(), 'Llgr': set(), 'ExtNexthop': set()}
+    modes = set()
+    for (_a, _h, _i, ps) in refs:
+        for p_ in ps:
+            for c in p_:
+                if c[0] == 'Mp':
+                    cov['Mp'].add((c[1], c[2]))
+                elif c[0] == 'AddPath':
+                    for a, s_, v in c[1]:
+                        cov['AddPath'].add((a, s_))
+                        modes.add(((a, s_), v))
+                elif c[0] == 'GracefulRestart':
+                    cov['GracefulRestart'].update((x[0], x[1]) for x in c[3])
+                elif c[0] in ('Llgr', 'ExtNexthop'):
+                    cov[c[0]].update((x[0], x[1]) for x in c[1])
+    named = named_families()
+    out = {}
+    for k, v in cov.items():
+        out[k] = {'distinct': len(v), 'named_covered': sum(1 for f in named if f in v),
+                  'unknown_covered': sum(1 for f in UNKNOWN_FAMILIES if f in v)}
+    out['named_families'] = len(named)
+    out['addpath_family_x_mode_named'] = sum(1 for f in named for v in (1, 2, 3) if (f, v) in modes)
+    return out
+
+
 def run(ctx):
     rng = ctx.rng
     viol, cases, samples = [], [], []
@@ -503,6 +679,8 @@ def run(ctx):
 
     # --- constants copied by the model
     cases.append(('sx_consts', live_consts(), ('constants',)))
+    cases.append(('sx_const_names', live_const_names(), ('constant-names: AFI_SAFI_DICT / ADD_PATH_ACT_DICT items',)))
+    cases.append(('sx_ref_names', ref_names_rendered(), ('reference-names: harness table vs spec/RefOpenNames.v',)))
 
     # --- construct: correspondence + round-trip oracle
     cons = gen_construct(ctx)
@@ -528,11 +706,12 @@ def run(ctx):
         if ver != 4 or not (1 <= asn < 2 ** 32):
             continue
         # the property: decoding returns the same values (attributes and return value)
-        want = [4, asn, hold, bid, expected_of_cfg(asn, cfg)]
-        got = impl_parse(body)
+        wantp = want_parse(4, asn, hold, bid, expected_of_cfg(asn, cfg))
+        want = wantp[1][0] if wantp[0] == 0 else None
+        got = impl_parse(body, named=True)
         if body[9] == 0:
             n_noopt += 1
-        if got != [0, [want, [want]]]:
+        if got != wantp:
             what = 'OPEN round trip: construct then parse does not give back the values'
             if got[0] == 0 and got[1][0] == want and got[1][1] == []:
                 what = ('OPEN round trip: Open.parse returns None for an OPEN without optional parameters '
@@ -553,13 +732,14 @@ def run(ctx):
     for b in bodies:
         if b not in seen:
             seen.add(b)
-            cases.append(('sx_res sx_open_parse (open_parse %s)' % coq_bytes(b), impl_parse(b), ('parse-own', b.hex())))
+            cases.append(('sx_res sx_open_parse_n (open_parse %s)' % coq_bytes(b), impl_parse(b, named=True),
+                          ('parse-own', b.hex())))
     stats['parse_own_distinct'] = len(seen)
 
     # --- parse: reference-encoded messages (correspondence + oracle)
     refs = gen_reference(ctx)
     ref_bodies = []
-    n_ref = 0
+    n_ref = n_ref_exc = 0
     for (my_as, hold, bid, ps) in refs:
         body = ref_open_body(4, my_as, hold, bid, ps)
         if body in seen:
@@ -567,18 +747,30 @@ def run(ctx):
         seen.add(body)
         ref_bodies.append(body)
         n_ref += 1
-        got = impl_parse(body)
-        cases.append(('sx_res sx_open_parse (open_parse %s)' % coq_bytes(body), got, ('parse-reference', body.hex())))
+        got = impl_parse(body, named=True)
+        cases.append(('sx_res sx_open_parse_n (open_parse %s)' % coq_bytes(body), got, ('parse-reference', body.hex())))
         asn, dic = expected(my_as, [c for p in ps for c in p])
-        want = [4, asn, hold, bid, dic]
-        if got != [0, [want, [want]]]:
+        wantp = want_parse(4, asn, hold, bid, dic)
+        want = wantp[1][0] if wantp[0] == 0 else None
+        if wantp[0] == 2:
+            n_ref_exc += 1
+        if got != wantp:
             what = 'reference-encoded OPEN does not decode to the expected values'
             if got[0] == 0 and got[1][0] == want and got[1][1] == []:
                 what = ('Open.parse returns None for a reference OPEN without optional parameters '
                         '(attributes are correct); apply build/proposed/c14_open_parse_return.diff')
+            elif wantp[0] == 2:
+                what = ('reference-encoded OPEN with an ADD-PATH entry that has no reference name (unknown family '
+                        'or undefined Send/Receive value) is not refused the way the unchanged code refuses it')
+            elif got[0] == 0 and wantp[0] == 0 and got[1][0][:4] == want[:4] and \
+                    [x for i, x in enumerate(got[1][0][4]) if i != 7] == [x for i, x in enumerate(want[4]) if i != 7]:
+                what = ("reference-encoded OPEN: the 'add_path' entries of the decoded dictionary do not carry the "
+                        "reference family / mode names (everything else is as expected)")
             violation(what, {'params': repr(ps)[:800], 'body': body.hex(), 'parse': repr(got)[:600],
-                             'want': repr(want)[:600]})
+                             'want': repr(wantp)[:600]})
     stats['parse_reference_cases'] = n_ref
+    stats['parse_reference_expected_exception'] = n_ref_exc
+    stats['family_coverage'] = family_coverage(refs)
     stats['reference_kinds'] = len(CAP_POOL)
     samples.append(['parse-reference', ref_bodies[len(ref_bodies) // 2].hex()])
 
@@ -591,10 +783,10 @@ def run(ctx):
             continue
         seen.add(b)
         n_mal += 1
-        got = impl_parse(b)
+        got = impl_parse(b, named=True)
         key = '%s:%s' % (tag, {0: 'value', 1: 'bgp-error', 2: 'exception'}[got[0]])
         kinds[key] = kinds.get(key, 0) + 1
-        cases.append(('sx_res sx_open_parse (open_parse %s)' % coq_bytes(b), got, ('parse-malformed', tag, b.hex())))
+        cases.append(('sx_res sx_open_parse_n (open_parse %s)' % coq_bytes(b), got, ('parse-malformed', tag, b.hex())))
     stats['parse_malformed_cases'] = n_mal
     stats['parse_malformed_outcomes'] = kinds
     samples.append(['parse-malformed', mal[len(mal) // 3][0].hex()])
@@ -603,5 +795,7 @@ def run(ctx):
     stats['open_correspondence_cases'] = len(cases)
     return {'evaluations': len(cases), 'distinct': len(seen) + n_ok,
             'rule': 'OPEN: every subset of the capability-dictionary keys x AS/hold/id boundaries for construct; '
-                    'own, reference-encoded (subsets, orders, packagings) and malformed bodies for parse',
+                    'own, reference-encoded (subsets, orders, packagings; every <AFI,SAFI> capability for every '
+                    'named and some unknown families, ADD-PATH with every Send/Receive value, names from the '
+                    'reference table) and malformed bodies for parse',
             'samples': samples, 'mismatches': mism, 'violations': viol, 'extra': {'open': stats}}
